@@ -79,6 +79,8 @@ type EPConf struct {
 	// object (so that two configurations share one) instead of building one from Roots.
 	TimeYear int            `json:"time_year,omitempty"`
 	RootPool *x509.CertPool `json:"-"`
+	// RandFail, if set, makes Config.Rand return an error whenever *RandFail is true
+	RandFail *bool `json:"-"`
 	// OnVerify, if set, is installed as Config.VerifyConnection: it is told whether the handshake is a
 	// resumption and how many peer certificates the connection state shows at that moment
 	OnVerify func(resumed bool, peerCerts int) `json:"-"`
@@ -143,7 +145,22 @@ func (s shortReader) Read(p []byte) (int, error) {
 	return n, err
 }
 
+type failingReader struct {
+	r    io.Reader
+	fail *bool
+}
+
+func (f failingReader) Read(p []byte) (int, error) {
+	if *f.fail {
+		return 0, fmt.Errorf("entropy source failed")
+	}
+	return f.r.Read(p)
+}
+
 func (e *EPConf) rand(env *Env, name string) io.Reader {
+	if e.RandFail != nil {
+		return failingReader{env.W.Rand(name), e.RandFail}
+	}
 	if !e.ShortRand {
 		return env.W.Rand(name)
 	}
